@@ -16,6 +16,7 @@ from harness.props import c01 as _c01     # only its string generators (seed spe
 
 PROP = "C03"
 THEOREM_FILE = "Props/C03.v"
+EXTRA_THEOREM_FILES = ["Props/C03_src.v"]     # SRCC: source tie for strategy/ipv4.py expand_partial_address (DESIGN 5.1b)
 BACKENDS = [None, "fallback"]
 NOHOST = 4
 RULE = ("every prefix 0..width of both families x boundary/random values with host bits x notation {a/p, a/netmask, "
